@@ -200,6 +200,10 @@ theorem routeCheck_ok {prov : α → Prov σ} {sn : σ} {m : MonS σ α} {c : Co
     rw [hp]
     simp only
     rw [if_pos (standalone_ok hm hb htag.2 hpl)]
+  · rename_i ps req post hctx hp
+    rw [hp]
+    simp only
+    rw [if_pos (standalone_ok hm hb htag.2 hpl)]
   · exact absurd htag id
 
 /-! ### the monitor's updates keep the relation -/
@@ -309,6 +313,7 @@ theorem isRespProv_of_tag {prov : α → Prov σ} {sn : σ} {c : Conn α} {sid :
   · rename_i hp; rw [hp]; rfl
   · exact absurd hmsg (htag.2.1 id p)
   · exact absurd hmsg (htag.2.1 id p)
+  · exact absurd hmsg (htag.1 id p)
   · exact absurd hmsg (htag.1 id p)
   · exact False.elim htag
 
